@@ -19,6 +19,7 @@ type cvGen struct {
 	dynSrc  bool // source types may contain placeholders
 	concStr bool // strings are concrete (needed when they meet number parsing)
 	shortStr bool // strings are one symbolic byte
+	markN    int
 	canon    bool // one canonical value per type: collections of one member, fixed leaves except bools
 }
 
@@ -423,7 +424,9 @@ func (g *cvGen) value(tag string, t cty.Type) cvPair {
 	}
 	if g.marks > 0 && vChoice(tag+"-mark", 2) == 1 {
 		g.marks--
-		p.c, p.w = p.c.Mark("m"), p.w.Mark("m")
+		g.markN++
+		m := "m" + string(rune('0'+g.markN))
+		p.c, p.w = p.c.Mark(m), p.w.Mark(m)
 	}
 	return p
 }
@@ -788,6 +791,65 @@ func cvMapToOptionalDynamic(in, want cty.Type) bool {
 	case want.IsTupleType() && in.IsTupleType() && in.Length() == want.Length():
 		for i := range want.TupleElementTypes() {
 			if cvMapToOptionalDynamic(in.TupleElementType(i), want.TupleElementType(i)) {
+				return true
+			}
+		}
+	}
+	return false
+}
+
+// cvDeepMarks: every mark anywhere inside v.
+func cvDeepMarks(v cty.Value) cty.ValueMarks {
+	out := cty.ValueMarks{}
+	_, pvm := v.UnmarkDeepWithPaths()
+	for _, pm := range pvm {
+		for m := range pm.Marks {
+			out[m] = struct{}{}
+		}
+	}
+	return out
+}
+
+func cvMarksSubset(a, b cty.ValueMarks) bool {
+	for m := range a {
+		if _, ok := b[m]; !ok {
+			return false
+		}
+	}
+	return true
+}
+
+// cvMayDrop: converting from in to want can discard members of the value (attributes or map keys without a
+// counterpart), so marks on discarded members legitimately disappear.
+func cvMayDrop(in, want cty.Type) bool {
+	switch {
+	case want == cty.DynamicPseudoType:
+		return false
+	case want.IsObjectType() && in.IsMapType():
+		return true
+	case want.IsObjectType() && in.IsObjectType():
+		for name, at := range in.AttributeTypes() {
+			if !want.HasAttribute(name) || cvMayDrop(at, want.AttributeType(name)) {
+				return true
+			}
+		}
+	case want.IsCollectionType() && in.IsCollectionType():
+		return cvMayDrop(in.ElementType(), want.ElementType())
+	case want.IsCollectionType() && in.IsTupleType():
+		for _, et := range in.TupleElementTypes() {
+			if cvMayDrop(et, want.ElementType()) {
+				return true
+			}
+		}
+	case want.IsCollectionType() && in.IsObjectType():
+		for _, at := range in.AttributeTypes() {
+			if cvMayDrop(at, want.ElementType()) {
+				return true
+			}
+		}
+	case want.IsTupleType() && in.IsTupleType() && in.Length() == want.Length():
+		for i := range want.TupleElementTypes() {
+			if cvMayDrop(in.TupleElementType(i), want.TupleElementType(i)) {
 				return true
 			}
 		}
